@@ -95,10 +95,16 @@ def run(ctx, cfg):
     elif mode == "pure":
         xs = [ctx.real("x%d" % i, lo, hi) for i, (lo, hi) in enumerate(dom)]
         xs_copy = list(xs)
+        ys = [ctx.real("y%d" % i, lo, hi) for i, (lo, hi) in enumerate(dom)]
         n_in = len(ctx.rng_log) + (len(ctx.E.inputs) if ctx.symbolic else ctx.pos)
         before = dict(vars(obj))
+        import copy as _copy
+        twin_obj = _copy.deepcopy(obj)  # same parameters / perturbation, never called so far
         y1 = ctx.call("f", obj.f, xs)
+        other = ctx.call("f", obj.f, ys)          # an unrelated evaluation in between
         y2 = ctx.call("f", obj.f, xs)
+        fresh_other = ctx.call("f", twin_obj.f, ys)
+        ctx.check_eq("pure_independent_of_call_history", other, fresh_other, "f(y) after f(x) differs from f(y) on a fresh copy of the objective")
         n_out = len(ctx.rng_log) + (len(ctx.E.inputs) if ctx.symbolic else ctx.pos)
         ctx.check("pure_same_value", ctx.same(y1, y2) if isinstance(y1, Sym) or isinstance(y2, Sym) else y1 == y2, "two evaluations at the same x differ")
         ctx.check_eq("pure_same_value_num", y1, y2)
